@@ -191,6 +191,23 @@ func c12Event(c obj) obj {
 		if err != nil {
 			panic("driver: marshal before: " + err.Error())
 		}
+		if len(p) >= 2 && ((uint64(rot)*2654435761)>>12)%2 == 0 {
+			// history: ANOTHER step was interpolated just before, with a one-dimension permutation whose value spells out
+			// this permutation's remaining dimensions ({os: "linux ver:1.2"} before {os: linux, ver: 1.2}) - a different permutation
+			dims := sortedKeys(asMap(c["p"]))
+			dv := p[dims[0]]
+			for _, d := range dims[1:] {
+				dv += " " + d + ":" + p[d]
+			}
+			tok := "{{matrix." + dims[0] + "}}"
+			if dims[0] == "" {
+				tok = "{{matrix}}"
+			}
+			decoy := &pipeline.CommandStep{Command: "decoy " + tok, Matrix: &pipeline.Matrix{Setup: pipeline.MatrixSetup{dims[0]: {dv}}}}
+			if derr := decoy.InterpolateMatrixPermutation(pipeline.MatrixPermutation{dims[0]: dv}); derr != nil || decoy.Command != "decoy "+dv {
+				panic(fmt.Sprintf("the step interpolated before this one came out wrong: %q err=%v", decoy.Command, derr))
+			}
+		}
 		ierr := cs.InterpolateMatrixPermutation(pipeline.MatrixPermutation(p))
 		after, err := json.Marshal(cs)
 		if err != nil {
